@@ -22,7 +22,7 @@ func init() {
 		Technique: "wiring table agreement by fingerprints (request attribute read by each Fetcher, comparison each Matcher bottoms out in, argument-to-parameter flow in each buildPrimitive arm), normaliser agreement between constructor and Match under the fold-case flag, nil-guard dominance in fetchers, error-to-false flow in PrimitiveCond.Match, boundary evaluation of range comparisons, interval evaluation of the operands compared with configured integer bounds / used as table indices (value-domain agreement with the constructor), data dependence of the compared operand on the fetched value and the configured fields",
 		Meta: core.Meta{
 			Level:       "other",
-			Explanation: "Decides: (a) wiring — for each of the primitives in buildPrimitive, the request attribute its fetcher's Fetch returns (access path such as req.HttpRequest.URL.Path, Header.Get(key), CachedQuery().Get(key), Session.Vip, host with the port split off), which literal argument becomes the fetcher key, the comparison family the matcher's Match bottoms out in (sorted search + ==, HasPrefix, HasSuffix, Contains, path-element prefix, MatchString, bytes.Compare range, IP.Equal, hash bucket, time Before/After, Clock), which argument is the pattern and whether the case flag is the documented argument (case_insensitive parameter in docs/en_us/condition) or the reviewed fixed value; fetchers and matchers are identified by what their methods do, not by type name; the five primitives that are conditions on their own (default_t, req_cip_trusted, req_proto_secure, req_query_exist, ses_tls_client_auth) are checked by the expression their Match returns; (b) fold-case agreement — every matcher with a case flag stores the constructor's flag parameter in the field its Match tests, and constructor and Match apply the same normaliser (ToUpper/ToLower) under that flag; matchers using binary search sort their patterns after normalising; HostMatcher normalises unconditionally on both sides and rejects patterns with a port; (c) missing attribute => false — PrimitiveCond.Match returns false on nil request/session/http request and whenever Fetch returns an error, and passes the fetched value to matcher.Match otherwise; every dereference of an optional pointer attribute (HttpResponse, ClientAddr, RemoteAddr, TlsState, URL) in a Fetch/Match method is dominated by a nil test of that pointer; (d) ranges are inclusive — in IPMatcher.Match, TimeMatcher.Match and PeriodicTimeMatcher.Match the branch taken when the value equals a bound reaches `true` and the branch taken just outside does not; (e) value domains (interval evaluation over SSA: ranges of the time.Time accessors, Go's sign rule for %, conversions, local variables, phis refined by the branch conditions of their edges, module callees with parameters bound to the argument ranges) — in every matcher whose Match compares the tested value with integer bounds of the receiver, every value the tested operand can take lies in the range the constructor can give the bound (PeriodicTimeMatcher: the seconds of day compared with [startTime, endTime] stay in [0, 86399], so a negative remainder for zones west of UTC is reported), the tested operand is computed from the value handed to Match and from every other configured field (the zone offset reaches the comparison), an index into a table of the receiver lies in [0, len) of the table the constructor builds (HashValueMatcher: bucket in [0, HashMatcherBucketSize)), and every field a matcher constructor sets is read by Match. Not covered: regular-expression semantics, the direction and magnitude of the time-zone shift (only that the configured offset reaches the comparison and the compared value stays a second of day), the murmur hash and the distribution of its buckets, header canonicalisation inside bfe_http.Header.Get, cookie/query parsing (bfe_http), IPv6 literal hosts in HostFetcher/PortFetcher (both split at the first colon; documented only for host:port).",
+			Explanation: "Decides: (a) wiring — for each of the primitives in buildPrimitive, the request attribute its fetcher's Fetch returns (access path such as req.HttpRequest.URL.Path, Header.Get(key), CachedQuery().Get(key), Session.Vip, host with the port split off), which literal argument becomes the fetcher key, the comparison family the matcher's Match bottoms out in (sorted search + ==, HasPrefix, HasSuffix, Contains, path-element prefix, MatchString, bytes.Compare range, IP.Equal, hash bucket, time Before/After, Clock), which argument is the pattern and whether the case flag is the documented argument (case_insensitive parameter in docs/en_us/condition) or the reviewed fixed value; fetchers and matchers are identified by what their methods do, not by type name; the five primitives that are conditions on their own (default_t, req_cip_trusted, req_proto_secure, req_query_exist, ses_tls_client_auth) are checked by the expression their Match returns; (b) fold-case agreement — every matcher with a case flag stores the constructor's flag parameter in the field its Match tests, and constructor and Match apply the same normaliser (ToUpper/ToLower) under that flag; matchers using binary search sort their patterns after normalising; HostMatcher normalises unconditionally on both sides and rejects patterns with a port; (c) missing attribute => false — PrimitiveCond.Match, evaluated by an SSA interpreter on every combination of {req, req.Session, req.HttpRequest nil or not, Fetch failing or not, verdict of matcher.Match on the fetched value} (private helpers included), returns false on nil request/session/http request and whenever Fetch returns an error, and the matcher's verdict on the fetched value otherwise; every dereference of an optional pointer attribute (HttpResponse, ClientAddr, RemoteAddr, TlsState, URL) in a Fetch/Match method is dominated by a nil test of that pointer (tests may be assembled with && / || into named booleans; what a branch on such a boolean implies is unfolded); (d) ranges are inclusive — IPMatcher.Match, TimeMatcher.Match and PeriodicTimeMatcher.Match are evaluated by the interpreter for a value below the lower bound, equal to it, strictly inside, equal to the upper bound, above it and for a single-point range, answering bytes.Compare / Before / After / Equal / integer comparisons against the receiver's bounds from that position (either argument order): the result is true exactly inside [lower, upper], whatever the spelling (early returns, one conjunction, negated or mirrored tests, named booleans, helpers); fold-case agreement and the sort-after-normalise rule follow private helpers (a helper called under the flag, or handed the flag as a parameter); (e) value domains (interval evaluation over SSA: ranges of the time.Time accessors, Go's sign rule for %, conversions, local variables, phis refined by the branch conditions of their edges, module callees with parameters bound to the argument ranges) — in every matcher whose Match compares the tested value with integer bounds of the receiver, every value the tested operand can take lies in the range the constructor can give the bound (PeriodicTimeMatcher: the seconds of day compared with [startTime, endTime] stay in [0, 86399], so a negative remainder for zones west of UTC is reported), the tested operand is computed from the value handed to Match and from every other configured field (the zone offset reaches the comparison), an index into a table of the receiver lies in [0, len) of the table the constructor builds (HashValueMatcher: bucket in [0, HashMatcherBucketSize)), and every field a matcher constructor sets is read by Match. Not covered: regular-expression semantics, the direction and magnitude of the time-zone shift (only that the configured offset reaches the comparison and the compared value stays a second of day), the murmur hash and the distribution of its buckets, header canonicalisation inside bfe_http.Header.Get, cookie/query parsing (bfe_http), IPv6 literal hosts in HostFetcher/PortFetcher (both split at the first colon; documented only for host:port).",
 			RuleText:    "obligations = one per primitive arm (wiring), one per matcher type with a case flag, per binary-search matcher, per Fetch/Match method with optional-pointer dereferences, the links of PrimitiveCond.Match, each bound test of the three range matchers, each integer bound comparison and each table index of a Match method (domain, dependence), each matcher constructor (fields used)",
 			Assumptions: []string{"req, req.Session and req.HttpRequest are non-nil for conditions evaluated by PrimitiveCond (its Match tests them first); the five stand-alone matchers are only evaluated on fully constructed requests"},
 		},
@@ -51,6 +51,13 @@ func init() {
 			{Name: "hash-case-flag-ignored", File: "bfe_basic/condition/primitive.go", Old: "	if matcher.insensitive {\n		value = strings.ToLower(rawValue)\n	}\n", New: "", Expect: "ctor-fields-used|HashValueMatcher"},
 			{Name: "silent-periodic-zone-by-normalised-remainder", Silent: true, File: "bfe_basic/condition/primitive.go", Old: "	tm = tm.In(time.FixedZone(\"zone\", t.offset))\n	hour, minute, second := tm.Clock()\n	seconds := hour*3600 + minute*60 + second\n", New: "	hour, minute, second := tm.UTC().Clock()\n	seconds := ((hour*3600+minute*60+second+t.offset)%86400 + 86400) % 86400\n"},
 			{Name: "silent-periodic-zone-by-remainder-and-fixup", Silent: true, File: "bfe_basic/condition/primitive.go", Old: "	tm = tm.In(time.FixedZone(\"zone\", t.offset))\n	hour, minute, second := tm.Clock()\n	seconds := hour*3600 + minute*60 + second\n", New: "	hour, minute, second := tm.UTC().Clock()\n	seconds := (hour*3600 + minute*60 + second + t.offset) % 86400\n	if seconds < 0 {\n		seconds += 86400\n	}\n"},
+			{Name: "silent-fold-step-extracted", File: "bfe_basic/condition/primitive.go", Old: "\tif p.foldCase {\n\t\tvs = strings.ToUpper(vs)\n\t}\n\n\treturn suffixIn(vs, p.patterns)\n}\n\nfunc NewSuffixInMatcher(patterns string, foldCase bool) *SuffixInMatcher {\n\tp := strings.Split(patterns, \"|\")\n\n\tif foldCase {\n\t\tp = toUpper(p)\n\t}\n", New: "\tvs = upperIf(vs, p.foldCase)\n\n\treturn suffixIn(vs, p.patterns)\n}\n\nfunc upperIf(s string, fold bool) string {\n\tif !fold {\n\t\treturn s\n\t}\n\treturn strings.ToUpper(s)\n}\n\nfunc splitAndFold(list string, fold bool) []string {\n\tparts := strings.Split(list, \"|\")\n\tif fold {\n\t\tparts = toUpper(parts)\n\t}\n\treturn parts\n}\n\nfunc NewSuffixInMatcher(patterns string, foldCase bool) *SuffixInMatcher {\n\tp := splitAndFold(patterns, foldCase)\n", Silent: true},
+			{Name: "silent-ip-range-as-conjunction", File: "bfe_basic/condition/primitive.go", Old: "\tif bytes.Compare(ipAddr, ip.startIP) < 0 {\n\t\treturn false\n\t}\n\n\tif bytes.Compare(ipAddr, ip.endIP) > 0 {\n\t\treturn false\n\t}\n\n\treturn true\n}\n", New: "\tnotBelow := bytes.Compare(ip.startIP, ipAddr) <= 0\n\tnotAbove := !(bytes.Compare(ipAddr, ip.endIP) > 0)\n\treturn notBelow && notAbove\n}\n", Silent: true},
+			{Name: "silent-nil-guards-as-named-booleans", File: "bfe_basic/condition/primitive.go", Old: "\tif ses == nil || !ses.IsSecure || ses.TlsState == nil || !ses.TlsState.ClientAuth ||\n\t\tses.TlsState.ClientCAName == \"\" {\n\t\treturn nil, fmt.Errorf(\"fetcher: no client CA name\")\n\t}\n", New: "\tsecure := ses != nil && ses.IsSecure\n\thasState := secure && ses.TlsState != nil\n\tnamed := hasState && ses.TlsState.ClientAuth && ses.TlsState.ClientCAName != \"\"\n\tif !named {\n\t\treturn nil, fmt.Errorf(\"fetcher: no client CA name\")\n\t}\n", Silent: true},
+			{Name: "silent-primitive-match-restructured", File: "bfe_basic/condition/primitive.go", Old: "\tif req == nil || req.Session == nil || req.HttpRequest == nil {\n\t\treturn false\n\t}\n\n\tfetched, err := p.fetcher.Fetch(req)\n\tif err != nil {\n\t\treturn false\n\t}\n\n\tr := p.matcher.Match(fetched)\n\treturn r\n}\n", New: "\tif !usable(req) {\n\t\treturn false\n\t}\n\n\tfetched, err := p.fetcher.Fetch(req)\n\tif err == nil {\n\t\treturn p.matcher.Match(fetched)\n\t}\n\treturn false\n}\n\nfunc usable(req *bfe_basic.Request) bool {\n\treturn req != nil && req.Session != nil && req.HttpRequest != nil\n}\n", Silent: true},
+			{Name: "silent-host-patterns-via-toupper", File: "bfe_basic/condition/primitive.go", Old: "\tupper := make([]string, len(patterns))\n\n\tfor i, v := range patterns {\n\t\t// port shoud not be included in host\n\t\tif strings.Contains(v, \":\") {\n\t\t\treturn nil, fmt.Errorf(\"port shoud not be included in host(%s)\", v)\n\t\t}\n\n\t\tupper[i] = strings.ToUpper(v)\n\t}\n\n\treturn upper, nil\n", New: "\tfor _, v := range patterns {\n\t\t// port shoud not be included in host\n\t\tif strings.Contains(v, \":\") {\n\t\t\treturn nil, fmt.Errorf(\"port shoud not be included in host(%s)\", v)\n\t\t}\n\t}\n\n\treturn toUpper(patterns), nil\n", Silent: true},
+			{Name: "silent-host-fetch-through-helper", File: "bfe_basic/condition/primitive.go", Old: "\thost := strings.SplitN(req.HttpRequest.Host, \":\", 2)[0]\n\treturn host, nil\n}\n", New: "\treturn hostWithoutPort(req.HttpRequest.Host), nil\n}\n\nfunc hostWithoutPort(hostport string) string {\n\treturn strings.SplitN(hostport, \":\", 2)[0]\n}\n", Silent: true},
+			{Name: "silent-in-helper-as-if-chain", File: "bfe_basic/condition/primitive.go", Old: "\treturn i < len(patterns) && patterns[i] == v", New: "\tif i >= len(patterns) {\n\t\treturn false\n\t}\n\treturn v == patterns[i]", Silent: true},
 			{Name: "silent-fetcher-type-renamed-helper", File: "bfe_basic/condition/primitive.go", Old: "func (mf *MethodFetcher) Fetch(req *bfe_basic.Request) (interface{}, error) {\n	if req == nil || req.HttpRequest == nil {\n		return nil, fmt.Errorf(\"fetcher: nil pointer\")\n	}\n\n	return req.HttpRequest.Method, nil", New: "func (mf *MethodFetcher) Fetch(req *bfe_basic.Request) (interface{}, error) {\n	if req == nil || req.HttpRequest == nil {\n		return nil, fmt.Errorf(\"fetcher: nil pointer\")\n	}\n	httpReq := req.HttpRequest\n	method := httpReq.Method\n	return method, nil", Silent: true},
 		},
 	})
@@ -209,7 +216,9 @@ func c18FetchFP(fn *ssa.Function) string {
 			continue
 		}
 		v := core.StripConv(rv[0])
-		set[cxCanon(fn, core.Render(v), "recv", "req")] = true
+		for _, alt := range c18RenderInl(v, 0) {
+			set[cxCanon(fn, alt, "recv", "req")] = true
+		}
 		// a fetcher that computes a boolean itself: what controls `true`
 		if k, ok := v.(*ssa.Const); ok && k.Value != nil && k.Value.ExactString() == "true" {
 			set[cxCanon(fn, "true<-["+strings.Join(core.GuardStrs(r.Block()), " && ")+"]", "recv", "req")] = true
@@ -227,6 +236,48 @@ func c18FetchFP(fn *ssa.Function) string {
 		}
 	}
 	return strings.Join(cxSortedKeys(set), " | ")
+}
+
+// c18RenderInl renders a fetched value; when the value is the result of a
+// private helper of the package (`hostOf(req.HttpRequest.Host)`) it renders what
+// the helper returns with the helper's parameters replaced by the arguments, so
+// that extracting the computation into a helper keeps the fingerprint.
+func c18RenderInl(v ssa.Value, depth int) []string {
+	v = core.StripConv(v)
+	var call *ssa.Call
+	switch x := v.(type) {
+	case *ssa.Call:
+		call = x
+	case *ssa.Extract:
+		if x.Index == 0 {
+			call, _ = x.Tuple.(*ssa.Call)
+		}
+	}
+	if call == nil || depth > 1 {
+		return []string{core.Render(v)}
+	}
+	h := call.Call.StaticCallee()
+	if h == nil || h.Blocks == nil || core.FuncPkgRel(h) != condPkg || h.Object() == nil || h.Object().Exported() || h.Signature.Recv() != nil && (h.Name() == "Fetch" || h.Name() == "Match") {
+		return []string{core.Render(v)}
+	}
+	args := make([]string, len(call.Call.Args))
+	for i, a := range call.Call.Args {
+		args[i] = core.Render(a)
+	}
+	var out []string
+	for _, r := range core.Returns(h) {
+		rv := core.RetVals(r)
+		if len(rv) == 0 || len(rv) == 2 && !isNilConst(rv[1]) {
+			continue
+		}
+		for _, alt := range c18RenderInl(rv[0], depth+1) {
+			out = append(out, cxCanon(h, alt, args...))
+		}
+	}
+	if len(out) == 0 {
+		return []string{core.Render(v)}
+	}
+	return out
 }
 
 var reArg = regexp.MustCompile(`node\.Args\[(\d+)\]`)
@@ -472,36 +523,77 @@ func runC18(c *core.Ctx) {
 
 // ---- (b) fold-case agreement -----------------------------------------------------------
 
-// normalisers called in fn (helpers expanded one level) at sites where guard holds.
-func c18Normalisers(fn *ssa.Function, guarded func(b *ssa.BasicBlock) bool) (under, outside map[string]bool) {
-	under, outside = map[string]bool{}, map[string]bool{}
+// c18IsNormaliser: a call of strings.ToUpper / strings.ToLower.
+func c18IsNormaliser(in ssa.Instruction) bool {
+	ci, ok := in.(ssa.CallInstruction)
+	if !ok {
+		return false
+	}
+	k := core.CalleeKey(ci.Common())
+	return k == "strings.ToUpper" || k == "strings.ToLower"
+}
+
+// c18AllNormalisers adds every normaliser fn may apply (package helpers expanded).
+func c18AllNormalisers(fn *ssa.Function, depth int, set map[string]bool) {
 	core.Instrs(fn, func(in ssa.Instruction) {
 		ci, ok := in.(ssa.CallInstruction)
 		if !ok {
 			return
 		}
-		var found []string
-		k := core.CalleeKey(ci.Common())
-		if k == "strings.ToUpper" || k == "strings.ToLower" {
-			found = append(found, k)
-		} else if sc := ci.Common().StaticCallee(); sc != nil && core.FuncPkgRel(sc) == condPkg {
-			core.Instrs(sc, func(in2 ssa.Instruction) {
-				if c2, ok := in2.(ssa.CallInstruction); ok {
-					if k2 := core.CalleeKey(c2.Common()); k2 == "strings.ToUpper" || k2 == "strings.ToLower" {
-						found = append(found, k2)
-					}
-				}
-			})
+		if c18IsNormaliser(in) {
+			set[core.CalleeKey(ci.Common())] = true
+			return
 		}
-		for _, f := range found {
-			if guarded(in.Block()) {
-				under[f] = true
-			} else {
-				outside[f] = true
-			}
+		if sc := ci.Common().StaticCallee(); sc != nil && sc.Blocks != nil && core.FuncPkgRel(sc) == condPkg && depth < 3 {
+			c18AllNormalisers(sc, depth+1, set)
 		}
 	})
-	return
+}
+
+// c18Normalisers collects the case normalisers fn applies, split into those
+// applied only when the case flag is set (`under`) and the others (`outside`).
+// isFlag recognises the flag in fn's frame. A helper of the package is
+// followed: a call made under the flag puts everything the helper does under
+// the flag; otherwise the helper is analysed with the flag bound to the
+// parameter(s) that receive it at this call site (`foldUpper(s, m.foldCase)`).
+func c18Normalisers(fn *ssa.Function, isFlag func(ssa.Value) bool, depth int, under, outside map[string]bool) {
+	core.Instrs(fn, func(in ssa.Instruction) {
+		ci, ok := in.(ssa.CallInstruction)
+		if !ok {
+			return
+		}
+		guarded := cxHasFact(in.Block(), func(g core.Guard) bool { return g.Pol && isFlag(g.Cond) })
+		if c18IsNormaliser(in) {
+			if guarded {
+				under[core.CalleeKey(ci.Common())] = true
+			} else {
+				outside[core.CalleeKey(ci.Common())] = true
+			}
+			return
+		}
+		sc := ci.Common().StaticCallee()
+		if sc == nil || sc.Blocks == nil || core.FuncPkgRel(sc) != condPkg || depth >= 3 {
+			return
+		}
+		if guarded {
+			c18AllNormalisers(sc, depth+1, under)
+			return
+		}
+		args := ci.Common().Args
+		inner := func(v ssa.Value) bool {
+			p, ok := core.StripConv(v).(*ssa.Parameter)
+			if !ok || p.Parent() != sc {
+				return false
+			}
+			for i, q := range sc.Params {
+				if q == p && i < len(args) {
+					return isFlag(args[i])
+				}
+			}
+			return false
+		}
+		c18Normalisers(sc, inner, depth+1, under, outside)
+	})
 }
 
 func c18Fold(c *core.Ctx, matcherTypes map[string]*types.Named) {
@@ -550,32 +642,45 @@ func c18Fold(c *core.Ctx, matcherTypes map[string]*types.Named) {
 		if usesSearch {
 			ok, detail := false, "no constructor found"
 			if ctor != nil {
-				sorts := core.Calls(ctor, "sort.Strings")
-				ok = len(sorts) > 0
-				detail = "the constructor does not sort the patterns that Match searches with sort.SearchStrings"
-				for _, s := range sorts {
-					later := core.ReachAvoiding(ctor, s.(ssa.Instruction), nil, func(in ssa.Instruction) bool {
-						ci, isC := in.(ssa.CallInstruction)
-						if !isC {
-							return false
-						}
-						k := core.CalleeKey(ci.Common())
-						return k == "strings.ToUpper" || k == "strings.ToLower" || k == condPkg+".toUpper" || k == condPkg+".checkHostAndToUpper"
-					})
-					if later != nil {
+				// a call that sorts the patterns (possibly inside a helper that always does) and
+				// a call that may change their case (possibly inside a helper)
+				isSort := core.LiftMust(func(in ssa.Instruction) bool {
+					ci, isC := in.(ssa.CallInstruction)
+					return isC && core.CallIs(ci.Common(), "sort.Strings")
+				}, 3)
+				mayNormalise := core.LiftMay(c18IsNormaliser, 3)
+				isSuccess := func(in ssa.Instruction) bool {
+					r, isR := in.(*ssa.Return)
+					if !isR {
+						return false
+					}
+					rv := core.RetVals(r)
+					return len(rv) > 0 && !isNilConst(rv[0])
+				}
+				ok = true
+				detail = ""
+				if miss := core.ReachAvoiding(ctor, nil, isSort, isSuccess); miss != nil {
+					ok = false
+					detail = "the constructor can return a matcher without having sorted the patterns that Match searches with sort.SearchStrings"
+				}
+				core.Instrs(ctor, func(in ssa.Instruction) {
+					if !mayNormalise(in) || isSort(in) {
+						return
+					}
+					if later := core.ReachAvoiding(ctor, in, isSort, isSuccess); later != nil {
 						ok = false
 						detail = "patterns are case-normalised after sort.Strings: the slice handed to sort.SearchStrings is no longer sorted"
 					}
-				}
+				})
 			}
 			c.Check("sorted", tn, posOfFn(ctor, match), ok, tn+": "+detail)
 		}
 		if flag == nil {
 			if tn == "HostMatcher" && match != nil && ctor != nil {
 				// unconditional on both sides
-				mu, mo := c18Normalisers(match, func(*ssa.BasicBlock) bool { return false })
-				cu, co := c18Normalisers(ctor, func(*ssa.BasicBlock) bool { return false })
-				_, _ = mu, cu
+				mo, co := map[string]bool{}, map[string]bool{}
+				c18AllNormalisers(match, 0, mo)
+				c18AllNormalisers(ctor, 0, co)
 				same := len(mo) == 1 && strings.Join(cxSortedKeys(mo), ",") == strings.Join(cxSortedKeys(co), ",")
 				c.Check("fold", tn, match.Pos(), same, fmt.Sprintf("HostMatcher must normalise case unconditionally with the same function on both sides; Match applies {%s}, constructor {%s}", strings.Join(cxSortedKeys(mo), ","), strings.Join(cxSortedKeys(co), ",")))
 				// patterns with a port are rejected (the fetcher strips the port)
@@ -608,28 +713,30 @@ func c18Fold(c *core.Ctx, matcherTypes map[string]*types.Named) {
 			continue
 		}
 		c.Analysed(core.FuncKey(match), core.FuncKey(ctor))
-		recv := match.Params[0].Name()
-		mUnder, mOut := c18Normalisers(match, func(b *ssa.BasicBlock) bool {
-			return core.HasGuard(b, func(g core.Guard) bool { return g.Pol && core.Render(g.Cond) == recv+"."+flag.Name() })
-		})
+		mUnder, mOut := map[string]bool{}, map[string]bool{}
+		c18Normalisers(match, func(v ssa.Value) bool {
+			base, ok := cxLoadField(v, flag.Name())
+			return ok && cxBind{}.resolve(base) == ssa.Value(match.Params[0])
+		}, 0, mUnder, mOut)
 		// the constructor parameter stored into the flag field
 		var param *ssa.Parameter
-		core.Instrs(ctor, func(in ssa.Instruction) {
-			if st, ok := in.(*ssa.Store); ok {
-				if fa, ok := st.Addr.(*ssa.FieldAddr); ok && core.FieldObj(fa.X, fa.Field) == flag {
-					if p, ok := st.Val.(*ssa.Parameter); ok {
-						param = p
+		for _, g := range c.P.Region(ctor) {
+			core.Instrs(g, func(in ssa.Instruction) {
+				if st, ok := in.(*ssa.Store); ok {
+					if fa, ok := st.Addr.(*ssa.FieldAddr); ok && core.FieldObj(fa.X, fa.Field) == flag {
+						if p, ok := core.StripConv(st.Val).(*ssa.Parameter); ok && p.Parent() == ctor {
+							param = p
+						}
 					}
 				}
-			}
-		})
+			})
+		}
 		var problems []string
 		if param == nil {
 			problems = append(problems, "the constructor does not store its flag parameter in ."+flag.Name())
 		}
-		cUnder, cOut := c18Normalisers(ctor, func(b *ssa.BasicBlock) bool {
-			return param != nil && core.HasGuard(b, func(g core.Guard) bool { return g.Pol && g.Cond == param })
-		})
+		cUnder, cOut := map[string]bool{}, map[string]bool{}
+		c18Normalisers(ctor, func(v ssa.Value) bool { return param != nil && core.StripConv(v) == ssa.Value(param) }, 0, cUnder, cOut)
 		mu, cu := strings.Join(cxSortedKeys(mUnder), ","), strings.Join(cxSortedKeys(cUnder), ",")
 		if len(mOut) > 0 {
 			problems = append(problems, "Match normalises case outside the flag test ("+strings.Join(cxSortedKeys(mOut), ",")+")")
@@ -666,56 +773,119 @@ func c18MatchFlow(c *core.Ctx) {
 		c.Missing(condPkg + ".PrimitiveCond.Match")
 		return
 	}
-	c.Analysed(core.FuncKey(fn))
-	var fetch, match *ssa.Call
-	core.Instrs(fn, func(in ssa.Instruction) {
+	for _, g := range c.P.Region(fn) {
+		c.Analysed(core.FuncKey(g))
+	}
+	nFetch, nMatch := 0, 0
+	c.P.RegionInstrs(fn, func(in ssa.Instruction) {
 		if call, ok := in.(*ssa.Call); ok && call.Call.IsInvoke() {
 			switch call.Call.Method.Name() {
 			case "Fetch":
-				fetch = call
+				nFetch++
 			case "Match":
-				match = call
+				nMatch++
 			}
 		}
 	})
-	if fetch == nil || match == nil {
+	if nFetch == 0 || nMatch == 0 {
 		c.Check("match-flow", "PrimitiveCond.Match:calls", fn.Pos(), false, "PrimitiveCond.Match must call fetcher.Fetch and matcher.Match")
 		return
 	}
-	var val, errV ssa.Value
-	if fetch.Referrers() != nil {
-		for _, r := range *fetch.Referrers() {
-			if ex, ok := r.(*ssa.Extract); ok {
-				if ex.Index == 0 {
-					val = ex
-				} else {
-					errV = ex
+	// The method is evaluated on abstract inputs: which of req, req.Session and
+	// req.HttpRequest is nil, whether Fetch fails, and the matcher's verdict on
+	// the fetched value. if-chains, inverted tests, named booleans, early
+	// returns and private helpers evaluate alike.
+	type input struct {
+		reqNil, sesNil, httpNil, fetchErr, verdict bool
+	}
+	run := func(x input) (result, decided bool, why string) {
+		it := &cxInterp{NonNil: true}
+		it.Oracle = func(it *cxInterp, fr *cxFrame, v ssa.Value) (cxVal, bool) {
+			switch y := v.(type) {
+			case *ssa.UnOp:
+				if y.Op != token.MUL {
+					return nil, false
+				}
+				switch k, _ := cxSymKey(it.get(fr, y.X)); k {
+				case "&req.Session":
+					if x.sesNil {
+						return cxNilV{}, true
+					}
+				case "&req.HttpRequest":
+					if x.httpNil {
+						return cxNilV{}, true
+					}
+				}
+			case *ssa.Call:
+				if !y.Call.IsInvoke() {
+					return nil, false
+				}
+				rk, _ := cxSymKey(it.get(fr, y.Call.Value))
+				switch y.Call.Method.Name() {
+				case "Fetch":
+					if ak, _ := cxSymKey(it.get(fr, y.Call.Args[0])); rk == "recv.fetcher" && ak == "req" && !x.sesNil && !x.httpNil {
+						if x.fetchErr {
+							return cxTuple{nil, cxSym{"fetch-error"}}, true
+						}
+						return cxTuple{cxSym{"fetched"}, cxNilV{}}, true
+					}
+					return nil, true
+				case "Match":
+					if ak, _ := cxSymKey(it.get(fr, y.Call.Args[0])); rk == "recv.matcher" && ak == "fetched" {
+						return x.verdict, true
+					}
+					return nil, true
 				}
 			}
+			return nil, false
 		}
-	}
-	// nil prologue
-	rq := cxP(fn, 1)
-	for _, p := range []string{"req", "req.Session", "req.HttpRequest"} {
-		path := rq + strings.TrimPrefix(p, "req")
-		ok := core.AllEdgesGuarded(fetch.Block(), func(g core.Guard) bool { return c18NilTest(g, path) == 1 })
-		c.Check("match-flow", "PrimitiveCond.Match:"+p+"!=nil", fn.Pos(), ok, "PrimitiveCond.Match must return false before fetching when "+p+" is nil (fetchers dereference it)")
-	}
-	okErr := errV != nil && core.AllEdgesGuarded(match.Block(), func(g core.Guard) bool { return cxErrTest(g, errV) == -1 })
-	c.Check("match-flow", "PrimitiveCond.Match:error=>false", fn.Pos(), okErr, "matcher.Match is reachable although fetcher.Fetch returned an error: a missing attribute must make the primitive false")
-	okArg := val != nil && len(match.Call.Args) == 1 && match.Call.Args[0] == val && core.Render(match.Call.Value) == cxP(fn, 0)+".matcher" && core.Render(fetch.Call.Value) == cxP(fn, 0)+".fetcher"
-	c.Check("match-flow", "PrimitiveCond.Match:value", fn.Pos(), okArg, "matcher.Match must be applied to the value returned by p.fetcher.Fetch(req); it is applied to "+core.Render(match.Call.Args[0]))
-	okRet := true
-	for _, r := range core.Returns(fn) {
-		rv := core.RetVals(r)[0]
-		if rv == match {
-			continue
+		var req cxVal = cxSym{"req"}
+		if x.reqNil {
+			req = cxNilV{}
 		}
-		if core.Render(rv) != "false" {
+		res, done := it.Run(fn, []cxVal{cxSym{"recv"}, req})
+		if !done || len(res) != 1 {
+			return false, false, it.Why
+		}
+		b, isBool := res[0].(bool)
+		if !isBool {
+			return false, false, "the result is not determined by the request, the fetch result and the matcher's verdict on the fetched value"
+		}
+		return b, true, ""
+	}
+	falseFor := func(x input) (bool, string) {
+		for _, v := range []bool{false, true} {
+			x.verdict = v
+			got, decided, why := run(x)
+			if !decided {
+				return false, "undecided: " + why
+			}
+			if got {
+				return false, "returns true"
+			}
+		}
+		return true, ""
+	}
+	ok, why := falseFor(input{reqNil: true, sesNil: true, httpNil: true})
+	c.Check("match-flow", "PrimitiveCond.Match:req!=nil", fn.Pos(), ok, "PrimitiveCond.Match must return false before fetching when req is nil (fetchers dereference it): "+why)
+	ok, why = falseFor(input{sesNil: true})
+	c.Check("match-flow", "PrimitiveCond.Match:req.Session!=nil", fn.Pos(), ok, "PrimitiveCond.Match must return false before fetching when req.Session is nil (fetchers dereference it): "+why)
+	ok, why = falseFor(input{httpNil: true})
+	c.Check("match-flow", "PrimitiveCond.Match:req.HttpRequest!=nil", fn.Pos(), ok, "PrimitiveCond.Match must return false before fetching when req.HttpRequest is nil (fetchers dereference it): "+why)
+	ok, why = falseFor(input{fetchErr: true})
+	c.Check("match-flow", "PrimitiveCond.Match:error=>false", fn.Pos(), ok, "when fetcher.Fetch returns an error the primitive must be false (a missing attribute never matches): "+why)
+	okArg, okRet, detail := true, true, ""
+	for _, v := range []bool{false, true} {
+		got, decided, why := run(input{verdict: v})
+		if !decided {
+			okArg = false
+			detail = why
+		} else if got != v {
 			okRet = false
 		}
 	}
-	c.Check("match-flow", "PrimitiveCond.Match:result", fn.Pos(), okRet, "PrimitiveCond.Match must return the matcher's verdict, and false on every other path")
+	c.Check("match-flow", "PrimitiveCond.Match:value", fn.Pos(), okArg, "matcher.Match must be applied to the value returned by p.fetcher.Fetch(req) and decide the result: "+detail)
+	c.Check("match-flow", "PrimitiveCond.Match:result", fn.Pos(), okArg && okRet, "PrimitiveCond.Match must return the matcher's verdict, and false on every other path")
 	c.Min("match-flow", 6)
 }
 
@@ -785,7 +955,7 @@ func c18NilGuards(c *core.Ctx) {
 				return
 			}
 			path := core.Render(ld)
-			ok = core.AllEdgesGuarded(in.Block(), func(g core.Guard) bool { return c18NilTest(g, path) == 1 })
+			ok = cxAllEdgesFact(in.Block(), func(g core.Guard) bool { return c18NilTest(g, path) == 1 })
 			ds = append(ds, deref{path, ok})
 		})
 		if len(ds) == 0 {
@@ -810,21 +980,146 @@ func c18NilGuards(c *core.Ctx) {
 
 // ---- (d) inclusive ranges ----------------------------------------------------------------------
 
-// c18Reaches: can a `return true` (or a return of a non-constant) be reached from block b?
-func c18ReachesTrue(fn *ssa.Function, b *ssa.BasicBlock, seen map[*ssa.BasicBlock]bool) bool {
-	if seen[b] {
-		return false
-	}
-	seen[b] = true
-	if r, ok := b.Instrs[len(b.Instrs)-1].(*ssa.Return); ok {
-		return core.Render(core.RetVals(r)[0]) != "false"
-	}
-	for _, s := range b.Succs {
-		if c18ReachesTrue(fn, s, seen) {
-			return true
+// c18RangeTable evaluates the Match method of a range matcher on abstract
+// inputs: lo and hi are the order of the value under test relative to the lower
+// and the upper bound held in the receiver (-1 below, 0 equal, +1 above). The
+// comparisons the method may use are answered from them: bytes.Compare(x,
+// bound) (either argument order), time.Time.Before/After/Equal/Compare against
+// a bound, and integer comparisons `x op bound`. Everything else is computed
+// by the interpreter, so early-return chains, one conjunction, negated tests,
+// named booleans and private helpers give the same table.
+func c18RangeTable(fn *ssa.Function, loField, hiField string, lo, hi int) (result, decided bool, why string) {
+	pos := func(key string) (int, bool) {
+		switch key {
+		case "recv." + loField:
+			return lo, true
+		case "recv." + hiField:
+			return hi, true
 		}
+		return 0, false
 	}
-	return false
+	derived := func(v cxVal) bool {
+		k, ok := cxSymKey(v)
+		return ok && (k == "v" || strings.HasPrefix(k, "v:"))
+	}
+	it := &cxInterp{NonNil: true}
+	it.Oracle = func(it *cxInterp, fr *cxFrame, v ssa.Value) (cxVal, bool) {
+		switch x := v.(type) {
+		case *ssa.TypeAssert:
+			if x.CommaOk && derived(it.get(fr, x.X)) {
+				return cxTuple{it.get(fr, x.X), true}, true
+			}
+		case *ssa.BinOp:
+			switch x.Op {
+			case token.LSS, token.LEQ, token.GTR, token.GEQ, token.EQL, token.NEQ:
+			default:
+				return nil, false
+			}
+			if k, ok := cxSymKey(it.get(fr, x.Y)); ok {
+				if p, isBound := pos(k); isBound {
+					return c18EvalCmp(x.Op, p, 0), true
+				}
+			}
+			if k, ok := cxSymKey(it.get(fr, x.X)); ok {
+				if p, isBound := pos(k); isBound {
+					return c18EvalCmp(x.Op, 0, p), true
+				}
+			}
+		case *ssa.Call:
+			if x.Call.IsInvoke() {
+				return nil, false
+			}
+			callee := x.Call.StaticCallee()
+			if callee == nil || callee.Blocks != nil && core.FuncPkgRel(callee) != "" {
+				return nil, false
+			}
+			args := make([]cxVal, len(x.Call.Args))
+			for i, a := range x.Call.Args {
+				args[i] = it.get(fr, a)
+			}
+			key := core.CalleeKey(&x.Call)
+			if len(args) == 2 {
+				// order of the tested value relative to the bound, whichever side the bound is on
+				ord, known := 0, false
+				if k, ok := cxSymKey(args[1]); ok && derived(args[0]) {
+					if p, isBound := pos(k); isBound {
+						ord, known = p, true
+					}
+				}
+				if k, ok := cxSymKey(args[0]); ok && derived(args[1]) {
+					if p, isBound := pos(k); isBound {
+						ord, known = -p, true
+					}
+				}
+				if known {
+					switch key {
+					case "bytes.Compare", "time.Time.Compare":
+						return int64(ord), true
+					case "time.Time.Before":
+						return ord < 0, true
+					case "time.Time.After":
+						return ord > 0, true
+					case "time.Time.Equal", "bytes.Equal", "net.IP.Equal":
+						return ord == 0, true
+					}
+				}
+			}
+			// a value computed from the value under test by a library function is still "the value"
+			for _, a := range args {
+				if derived(a) {
+					return cxSym{"v:" + key}, true
+				}
+			}
+		}
+		return nil, false
+	}
+	res, done := it.Run(fn, []cxVal{cxSym{"recv"}, cxSym{"v"}})
+	if !done || len(res) != 1 {
+		return false, false, it.Why
+	}
+	b, isBool := res[0].(bool)
+	if !isBool {
+		return false, false, "the result is not determined by the order of the value relative to " + loField + " and " + hiField
+	}
+	return b, true, ""
+}
+
+func c18Inclusive(c *core.Ctx) {
+	for _, w := range []struct{ typ, lo, hi, what string }{
+		{"IPMatcher", "startIP", "endIP", "[start_ip, end_ip]"},
+		{"PeriodicTimeMatcher", "startTime", "endTime", "[start_time, end_time]"},
+		{"TimeMatcher", "startTime", "endTime", "[start_time, end_time]"},
+	} {
+		fn := c.P.Func(condPkg, w.typ+".Match")
+		if fn == nil {
+			c.Missing(condPkg + "." + w.typ + ".Match")
+			continue
+		}
+		c.Analysed(core.FuncKey(fn))
+		type pt struct {
+			lo, hi int
+			want   bool
+			name   string
+		}
+		check := func(bound string, pts []pt) {
+			ok, detail := true, ""
+			for _, p := range pts {
+				got, decided, why := c18RangeTable(fn, w.lo, w.hi, p.lo, p.hi)
+				switch {
+				case !decided:
+					ok = false
+					detail += fmt.Sprintf("for a value %s the result is undecided (%s); ", p.name, why)
+				case got != p.want:
+					ok = false
+					detail += fmt.Sprintf("a value %s yields %v; ", p.name, got)
+				}
+			}
+			c.Check("inclusive", w.typ+".Match:"+bound, fn.Pos(), ok, fmt.Sprintf("%s.Match, bound %s: %sthe documented range %s includes both ends and nothing outside", w.typ, bound, detail, w.what))
+		}
+		check(w.lo, []pt{{-1, -1, false, "below " + w.lo}, {0, -1, true, "equal to " + w.lo}, {0, 0, true, "equal to both bounds (single-point range)"}})
+		check(w.hi, []pt{{1, -1, true, "strictly inside the range"}, {1, 0, true, "equal to " + w.hi}, {1, 1, false, "above " + w.hi}})
+	}
+	c.Min("inclusive", 6)
 }
 
 func c18EvalCmp(op token.Token, l, r int) bool {
@@ -843,194 +1138,6 @@ func c18EvalCmp(op token.Token, l, r int) bool {
 		return l != r
 	}
 	return false
-}
-
-func c18Inclusive(c *core.Ctx) {
-	// IPMatcher.Match: tests `bytes.Compare(v, bound) op 0`
-	if fn := c.P.Func(condPkg, "IPMatcher.Match"); fn == nil {
-		c.Missing(condPkg + ".IPMatcher.Match")
-	} else {
-		c.Analysed(core.FuncKey(fn))
-		seenB := map[string]bool{}
-		for _, b := range fn.Blocks {
-			ifi, ok := b.Instrs[len(b.Instrs)-1].(*ssa.If)
-			if !ok {
-				continue
-			}
-			bo, ok := ifi.Cond.(*ssa.BinOp)
-			if !ok {
-				continue
-			}
-			call, ok := bo.X.(*ssa.Call)
-			zero, isK := cxConstInt(bo.Y)
-			if !ok || !isK || zero != 0 || !core.CallIs(&call.Call, "bytes.Compare") {
-				continue
-			}
-			a0, a1 := core.Render(call.Call.Args[0]), core.Render(call.Call.Args[1])
-			bound, flip := "", 1
-			switch {
-			case strings.HasSuffix(a1, "startIP") || strings.HasSuffix(a1, "endIP"):
-				bound = a1[strings.LastIndex(a1, ".")+1:]
-			case strings.HasSuffix(a0, "startIP") || strings.HasSuffix(a0, "endIP"):
-				bound, flip = a0[strings.LastIndex(a0, ".")+1:], -1
-			default:
-				continue
-			}
-			seenB[bound] = true
-			outside := -1 // value below the start bound
-			if bound == "endIP" {
-				outside = 1
-			}
-			succ := func(cmp int) *ssa.BasicBlock {
-				if c18EvalCmp(bo.Op, cmp*flip, 0) {
-					return b.Succs[0]
-				}
-				return b.Succs[1]
-			}
-			okEq := c18ReachesTrue(fn, succ(0), map[*ssa.BasicBlock]bool{})
-			okOut := !c18ReachesTrue(fn, succ(outside), map[*ssa.BasicBlock]bool{})
-			c.Check("inclusive", "IPMatcher.Match:"+bound, bo.Pos(), okEq && okOut, fmt.Sprintf("IPMatcher.Match, test against %s: an address equal to the bound must be able to match (got %v) and an address outside must not (got %v); the documented range is [start_ip, end_ip]", bound, okEq, !okOut))
-		}
-		for _, bnd := range []string{"startIP", "endIP"} {
-			if !seenB[bnd] {
-				c.Check("inclusive", "IPMatcher.Match:"+bnd, fn.Pos(), false, "IPMatcher.Match has no bytes.Compare test against "+bnd)
-			}
-		}
-	}
-	// PeriodicTimeMatcher.Match: integer comparisons against t.startTime / t.endTime
-	if fn := c.P.Func(condPkg, "PeriodicTimeMatcher.Match"); fn == nil {
-		c.Missing(condPkg + ".PeriodicTimeMatcher.Match")
-	} else {
-		c.Analysed(core.FuncKey(fn))
-		seenB := map[string]bool{}
-		core.Instrs(fn, func(in ssa.Instruction) {
-			bo, ok := in.(*ssa.BinOp)
-			if !ok {
-				return
-			}
-			x, y := core.Render(bo.X), core.Render(bo.Y)
-			bound, flip := "", 1
-			switch {
-			case strings.HasSuffix(y, ".startTime") || strings.HasSuffix(y, ".endTime"):
-				bound = y[strings.LastIndex(y, ".")+1:]
-			case strings.HasSuffix(x, ".startTime") || strings.HasSuffix(x, ".endTime"):
-				bound, flip = x[strings.LastIndex(x, ".")+1:], -1
-			default:
-				return
-			}
-			switch bo.Op {
-			case token.LSS, token.LEQ, token.GTR, token.GEQ:
-			default:
-				return
-			}
-			seenB[bound] = true
-			outside := -1
-			if bound == "endTime" {
-				outside = 1
-			}
-			// the comparison's truth value is the "inside" verdict of this bound (a && b) or its negation
-			// (early return false); decide by where the equal case leads.
-			ev := func(cmp int) bool {
-				l, r := cmp, 0
-				if flip < 0 {
-					l, r = 0, cmp
-				}
-				return c18EvalCmp(bo.Op, l, r)
-			}
-			eq, out := ev(0), ev(outside)
-			// inside-test form: eq true, out false. reject-test form: eq false, out true.
-			okShape := eq != out
-			insideForm := eq && !out
-			ok = okShape && c18VerdictPolarity(fn, bo, insideForm)
-			c.Check("inclusive", "PeriodicTimeMatcher.Match:"+bound, bo.Pos(), ok, fmt.Sprintf("PeriodicTimeMatcher.Match, test `seconds %s %s`: at the bound the test yields %v, just outside %v; the documented window [start_time, end_time] includes both ends", bo.Op, bound, eq, out))
-		})
-		for _, bnd := range []string{"startTime", "endTime"} {
-			if !seenB[bnd] {
-				c.Check("inclusive", "PeriodicTimeMatcher.Match:"+bnd, fn.Pos(), false, "PeriodicTimeMatcher.Match has no comparison against "+bnd)
-			}
-		}
-	}
-	// TimeMatcher.Match: Before(start) => false, After(end) => false
-	if fn := c.P.Func(condPkg, "TimeMatcher.Match"); fn == nil {
-		c.Missing(condPkg + ".TimeMatcher.Match")
-	} else {
-		c.Analysed(core.FuncKey(fn))
-		for _, w := range []struct{ m, bound string }{{"time.Time.Before", "startTime"}, {"time.Time.After", "endTime"}} {
-			ok, n := true, 0
-			for _, call := range core.Calls(fn, w.m) {
-				v, isV := call.(*ssa.Call)
-				if !isV || len(v.Call.Args) != 2 {
-					continue
-				}
-				if !strings.HasSuffix(core.Render(v.Call.Args[1]), "."+w.bound) {
-					ok = false
-					continue
-				}
-				n++
-				// the true branch must not reach `true`; the false branch must
-				for _, b := range fn.Blocks {
-					if ifi, isIf := b.Instrs[len(b.Instrs)-1].(*ssa.If); isIf && ifi.Cond == v {
-						if c18ReachesTrue(fn, b.Succs[0], map[*ssa.BasicBlock]bool{}) || !c18ReachesTrue(fn, b.Succs[1], map[*ssa.BasicBlock]bool{}) {
-							ok = false
-						}
-					}
-				}
-			}
-			c.Check("inclusive", "TimeMatcher.Match:"+w.bound, fn.Pos(), ok && n == 1, "TimeMatcher.Match must reject exactly the instants "+strings.TrimPrefix(w.m, "time.Time.")+" "+w.bound+" (so that both ends of [start_time, end_time] match)")
-		}
-	}
-	c.Min("inclusive", 6)
-}
-
-// c18VerdictPolarity: the boolean bo flows to the function result with the
-// given polarity: insideForm => (bo false => result false), reject form =>
-// (bo true => result false).
-func c18VerdictPolarity(fn *ssa.Function, bo *ssa.BinOp, insideForm bool) bool {
-	// find the If that branches on bo (short-circuit && compiles every operand but the last to an If;
-	// the last operand flows into the phi that is returned)
-	for _, b := range fn.Blocks {
-		ifi, ok := b.Instrs[len(b.Instrs)-1].(*ssa.If)
-		if !ok || ifi.Cond != bo {
-			continue
-		}
-		falseSide, trueSide := b.Succs[1], b.Succs[0]
-		if insideForm {
-			return !c18ReachesNonFalseVia(fn, falseSide, b)
-		}
-		return !c18ReachesNonFalseVia(fn, trueSide, b)
-	}
-	// bo is itself (an edge of) the returned value
-	for _, r := range core.Returns(fn) {
-		rv := core.RetVals(r)[0]
-		if rv == bo {
-			return insideForm
-		}
-		if phi, ok := rv.(*ssa.Phi); ok {
-			for _, e := range phi.Edges {
-				if e == bo {
-					return insideForm
-				}
-			}
-		}
-	}
-	return false
-}
-
-// c18ReachesNonFalseVia: entering `to` from `from`, can the function return
-// something other than false? Handles the `a && b` join (phi edge from `from`).
-func c18ReachesNonFalseVia(fn *ssa.Function, to, from *ssa.BasicBlock) bool {
-	if r, ok := to.Instrs[len(to.Instrs)-1].(*ssa.Return); ok {
-		rv := core.RetVals(r)[0]
-		if phi, isPhi := rv.(*ssa.Phi); isPhi && phi.Block() == to {
-			for i, p := range to.Preds {
-				if p == from {
-					return core.Render(phi.Edges[i]) != "false"
-				}
-			}
-		}
-		return core.Render(rv) != "false"
-	}
-	return c18ReachesTrue(fn, to, map[*ssa.BasicBlock]bool{})
 }
 
 // ---- (a2) matcher helpers and verdict polarity -------------------------------------------
@@ -1139,15 +1246,17 @@ func c18Helpers(c *core.Ctx, matcherTypes map[string]*types.Named) {
 				if core.Render(a[0]) != pats || core.Render(a[1]) != v {
 					problems = append(problems, "sort.SearchStrings must search the patterns for the value")
 				}
-				idx := call.(ssa.Value)
-				for _, r := range core.Returns(h) {
-					op, l, rr := cxShortCircuit(core.RetVals(r)[0])
-					lb, lok := l.(*ssa.BinOp)
-					rb, rok := rr.(*ssa.BinOp)
-					good := op == "&&" && lok && rok && lb.Op == token.LSS && lb.X == idx && core.Render(lb.Y) == "builtin:len("+pats+")" &&
-						rb.Op == token.EQL && (core.Render(rb.X) == pats+"["+core.Render(idx)+"]" && core.Render(rb.Y) == v || core.Render(rb.Y) == pats+"["+core.Render(idx)+"]" && core.Render(rb.X) == v)
-					if !good {
-						problems = append(problems, "the result must be `i < len(patterns) && patterns[i] == value` with i the search position; it is "+cxTrim(core.Render(core.RetVals(r)[0]), 160))
+				// the result is `i < len(patterns) && patterns[i] == value` with i the search position,
+				// in any spelling: evaluated for both outcomes of the two tests
+				for _, inRange := range []bool{false, true} {
+					for _, equal := range []bool{false, true} {
+						got, decided, why := c18SearchTable(h, inRange, equal)
+						switch {
+						case !decided:
+							problems = append(problems, "the result must be `i < len(patterns) && patterns[i] == value` with i the search position; it is undecided: "+why)
+						case got != (inRange && equal):
+							problems = append(problems, fmt.Sprintf("the result must be `i < len(patterns) && patterns[i] == value` with i the search position; with i<len=%v and patterns[i]==value=%v it is %v", inRange, equal, got))
+						}
 					}
 				}
 			}
@@ -1158,6 +1267,74 @@ func c18Helpers(c *core.Ctx, matcherTypes map[string]*types.Named) {
 		c.Check("helper", h.Name(), h.Pos(), len(problems) == 0, "helper "+h.Name()+"(value, patterns): "+strings.Join(cxUniq(problems), "; "))
 	}
 	c.Min("helper", 4)
+}
+
+// c18SearchTable evaluates a `(value, patterns) bool` helper built on
+// sort.SearchStrings for the two facts that decide membership: the search
+// position lies inside the slice, and the pattern found there equals the value.
+// Reading patterns[i] when the position is outside makes the run undecided.
+func c18SearchTable(h *ssa.Function, inRange, equal bool) (result, decided bool, why string) {
+	ord := 0 // position relative to len(patterns): -1 inside, 0 at the end (not found)
+	if inRange {
+		ord = -1
+	}
+	it := &cxInterp{NonNil: true}
+	key := func(fr *cxFrame, v ssa.Value) string { k, _ := cxSymKey(it.get(fr, v)); return k }
+	oob := false
+	it.Oracle = func(it *cxInterp, fr *cxFrame, v ssa.Value) (cxVal, bool) {
+		switch x := v.(type) {
+		case *ssa.Call:
+			if b, ok := x.Call.Value.(*ssa.Builtin); ok && b.Name() == "len" && len(x.Call.Args) == 1 && key(fr, x.Call.Args[0]) == "patterns" {
+				return cxSym{"len"}, true
+			}
+			if core.CallIs(&x.Call, "sort.SearchStrings") && len(x.Call.Args) == 2 {
+				if key(fr, x.Call.Args[0]) == "patterns" && key(fr, x.Call.Args[1]) == "v" {
+					return cxSym{"idx"}, true
+				}
+				return nil, true
+			}
+		case *ssa.IndexAddr:
+			if key(fr, x.X) == "patterns" && key(fr, x.Index) == "idx" {
+				if !inRange {
+					return cxSym{"&out-of-range"}, true
+				}
+				return cxSym{"&patterns[idx]"}, true
+			}
+		case *ssa.UnOp:
+			if x.Op == token.MUL && key(fr, x.X) == "&out-of-range" {
+				oob = true
+				return nil, true
+			}
+		case *ssa.BinOp:
+			kx, ky := key(fr, x.X), key(fr, x.Y)
+			switch {
+			case kx == "idx" && ky == "len":
+				return c18EvalCmp(x.Op, ord, 0), true
+			case kx == "len" && ky == "idx":
+				return c18EvalCmp(x.Op, 0, ord), true
+			case kx == "patterns[idx]" && ky == "v" || kx == "v" && ky == "patterns[idx]":
+				switch x.Op {
+				case token.EQL:
+					return equal, true
+				case token.NEQ:
+					return !equal, true
+				}
+			}
+		}
+		return nil, false
+	}
+	res, done := it.Run(h, []cxVal{cxSym{"v"}, cxSym{"patterns"}})
+	if oob {
+		return false, false, "patterns[i] is read although i may equal len(patterns)"
+	}
+	if !done || len(res) != 1 {
+		return false, false, it.Why
+	}
+	b, isBool := res[0].(bool)
+	if !isBool {
+		return false, false, "the result is not determined by `i < len(patterns)` and `patterns[i] == value`"
+	}
+	return b, true, ""
 }
 
 // ---- (e) value domains of the range matchers --------------------------------------------
